@@ -384,10 +384,15 @@ def r4(chk):
     else:
         # one call after the branch: the population handed over is `data` on the branch where data were given (x = data) and
         # the assumed population otherwise
+        # (or, mirrored, `data` itself with `data = x` on the branch where none were given)
         xdefs = env.get(XN, [])
         given = [d for d in xdefs if norm(d.value) == "data"]
         data_ok = len(tcalls) == 1 and arg0 == [XN] and len(given) == 1 and any(
             in_body and aud.cond_equiv(Tx().cond(a_.test), spec.cond_term("data is not None"))[0] for a_, in_body in _guards(given[0], fn))
+        if not data_ok and len(tcalls) == 1 and arg0 == ["data"]:
+            ddefs = [d for d in env.get("data", []) if isinstance(d, ast.Assign)]
+            data_ok = len(ddefs) == 1 and norm(ddefs[0].value) == XN and any(
+                in_body and aud.cond_equiv(Tx().cond(a_.test), spec.cond_term("data is None"))[0] for a_, in_body in _guards(ddefs[0], fn))
     ok = alpha_ok and data_ok
     chk.ob("C16.R4", where, "own-test-own-limit", ok,
            "the estimate is the assertion's own test's sample_size on the data (given or assumed) at the contest's own risk limit", node=fn, strength="N")
